@@ -237,11 +237,11 @@ type nestedSpec struct {
 	wrap string
 }
 
-var wraps = []string{"", "list", "set", "map", "list<list>"}
+var wraps = []string{"", "list", "set", "map", "list<list>", "list-behind-a-complete-element"}
 
 func wrapShape(s *tbin.Shape, w string) *tbin.Shape {
 	switch w {
-	case "list":
+	case "list", "list-behind-a-complete-element":
 		return tbin.ListS(s)
 	case "set":
 		return tbin.SetS(s)
@@ -255,6 +255,8 @@ func wrapShape(s *tbin.Shape, w string) *tbin.Shape {
 
 func wrapVal(v *tbin.Val, w string) *tbin.Val {
 	switch w {
+	case "list-behind-a-complete-element":
+		panic("use wrapVal2")
 	case "list":
 		return tbin.List(tbin.STRUCT, v)
 	case "set":
@@ -265,6 +267,22 @@ func wrapVal(v *tbin.Val, w string) *tbin.Val {
 		return tbin.List(tbin.LIST, tbin.List(tbin.STRUCT, v))
 	}
 	return v
+}
+
+// wrapVal2 / wrapJSON2: the element under test is the SECOND element of a list whose first element carries every
+// field (per-element state - a requiredness bitmap - must not survive from one element to the next)
+func wrapVal2(full, v *tbin.Val, w string) *tbin.Val {
+	if w == "list-behind-a-complete-element" {
+		return tbin.List(tbin.STRUCT, full, v)
+	}
+	return wrapVal(v, w)
+}
+
+func wrapJSON2(full, x *jt.J, w string) *jt.J {
+	if w == "list-behind-a-complete-element" {
+		return jt.JArr(full, x)
+	}
+	return wrapJSON(x, w)
 }
 
 func wrapJSON(x *jt.J, w string) *jt.J {
@@ -291,6 +309,11 @@ func unwrapJSON(x *jt.J, w string) *jt.J {
 		return x.A[0]
 	}
 	switch w {
+	case "list-behind-a-complete-element":
+		if x == nil || x.K != 'a' || len(x.A) != 2 {
+			return nil
+		}
+		return x.A[1]
 	case "list", "set":
 		return one(x)
 	case "map":
@@ -312,6 +335,11 @@ func unwrapVal(v *tbin.Val, w string) *tbin.Val {
 		return v.L[0]
 	}
 	switch w {
+	case "list-behind-a-complete-element":
+		if v == nil || v.T != tbin.LIST || len(v.L) != 2 {
+			return nil
+		}
+		return v.L[1]
 	case "list":
 		return one(v, tbin.LIST)
 	case "set":
@@ -435,7 +463,8 @@ func (s *scen) runNested(r core.Result) core.Result {
 			j.Add("in", jt.JNull())
 		case 2:
 			x, _ := s.p.prog.Doc(innerVal, s.p.root, jt.DocOpt{})
-			j.Add("in", wrapJSON(x, n.wrap))
+			fx, _ := s.p.prog.Doc(s.fullMessage(), s.p.root, jt.DocOpt{})
+			j.Add("in", wrapJSON2(fx, x, n.wrap))
 		}
 		j.Add("tail", jt.JNum("42"))
 		doc := jt.Render(j, jt.Spell{})
@@ -445,7 +474,7 @@ func (s *scen) runNested(r core.Result) core.Result {
 	default:
 		v := tbin.Struct()
 		if n.outerState == 2 {
-			v.Fs = append(v.Fs, tbin.F(outerID, wrapVal(innerVal, n.wrap)))
+			v.Fs = append(v.Fs, tbin.F(outerID, wrapVal2(s.fullMessage(), innerVal, n.wrap)))
 		}
 		v.Fs = append(v.Fs, tail)
 		msg := tbin.Bytes(v)
